@@ -1273,8 +1273,8 @@ def _judge(c, out, res, names, loop_errors):
     for rec in out['ops']:
         o = rec['op']
         res.label('op:' + o['op'], 'op-status:' + rec['status'])
-        if rec['status'] == 'no-transfer':
-            continue
+        if rec['status'] == 'no-transfer' or 'pre' not in rec:
+            continue     # the call was never made (transfer missing / the awaited state was not reached in 90 s)
         p = peers[o['peer']]
         pre = rec['pre']
         point = f"{rec['direction'][:2]}:{pre['state']}" + ('+rq' if pre['remotely_queued'] else '')
